@@ -810,7 +810,7 @@ func (ex *Exec) step(fr *Frame, st *State, in ssa.Instruction) ([]Outcome, bool)
 				}
 			}
 			abs := st.Arith(token.ADD, base.Off, idx, ex.pos(x))
-			fr.regs[x] = &PtrV{Obj: base.Obj, Path: []PathElem{{Index: abs, Field: -1}}}
+			fr.regs[x] = &PtrV{Obj: base.Obj, Path: append(append([]PathElem{}, base.Path...), PathElem{Index: abs, Field: -1})}
 		case *PtrV: // pointer to array
 			if base.Unk {
 				fr.regs[x] = &PtrV{Unk: true}
